@@ -439,7 +439,22 @@ class RecipeGen:
             opts.append(("dyn", 2))
         if self.f["comment"]:
             opts.append(("comment", 1))
+        if sc.mode == "app" and self.f["helpers"]:
+            opts += [("opup", 1), ("mcall", 1)]
+        if self.f["helpers"]:
+            opts.append(("pragma", 1))
         k = self.pick(opts)
+        if k == "opup":
+            self.need(6)
+            return ["opup", r.choice(["oncall", "explicit"]), r.choice([700, 1000, 2000]), r.choice(["credit", "app", "any"])]
+        if k == "mcall":
+            self.need(6)
+            u64 = sc.abis_of(["uint64"])
+            if len(u64) >= 2 and r.random() < 0.6:
+                return ["mcall", "add(uint64,uint64)uint64", [["abiref", r.choice(u64)], ["abiref", r.choice(u64)]]]
+            return ["mcall", "f()void", []]
+        if k == "pragma":
+            return ["pragma", r.choice([">=0.20.0", "<1.0.0", ">=0.26.0"]), self.stmt(sc, d + 1)]
         if k == "pop":
             return ["pop", self.expr(sc, r.choice(["u", "b"]), d)]
         if k == "assert":
@@ -751,6 +766,8 @@ class RecipeGen:
         if nsubs:
             self.need(4)
         spec = {"id": pid, "kind": "expr", "mode": mode, "target": target, "subs": self.subs, "steps": steps, "minv": self.minv, "ntypes": self.ntypes, "globals": self.gvars}
+        if self.f.get("nonce") and r.random() < 0.5:
+            spec["nonce"] = r.choice([["base64", "YQ=="], ["base16", "0xdeadbeef"], ["base32", "MFRGGZDF"]])
         return spec
 
     def global_steps(self):
@@ -829,12 +846,17 @@ class RecipeGen:
                     fault_on_handler = False
                 handler_subs.append(hs)
                 bare[oc] = [[kind, idx], cc]
+        clear_kind = "expr" if r.random() < 0.4 else ("sub" if r.random() < 0.25 else None)
+        clear = None
+        if clear_kind == "sub":
+            idx = len(self.subs) + len(handler_subs)
+            handler_subs.append({"name": f"clr{idx}", "deco": "sub", "ret": "n", "params": [], "body": [], "retexpr": None, "handler_only": True})
+            clear = ["sub", idx]
         base = len(self.subs)
         self.subs = self.subs + handler_subs
         for i in range(len(handler_subs)):
             self.gen_sub_body(base + i, mode)
-        clear = None
-        if r.random() < 0.4:
+        if clear_kind == "expr":
             sc = Scope(mode)
             clear = ["expr", [self.stmt(sc, self.f["max_nest"])]]
         # helpers and bare-call handlers exist before the router; a method's subroutine is
@@ -850,7 +872,10 @@ class RecipeGen:
                 mc = {r.choice(["no_op", "opt_in", "close_out"]): r.choice(["CALL", "CREATE", "ALL"])}
             if k in late:
                 steps.append(["defsub", k])
-            steps.append(["add_method", k, {"mc": mc}])
+            cfgm = {"mc": mc}
+            if r.random() < 0.15:
+                cfgm["name"] = r.choice(["renamed", "do_thing", "m"]) + str(k)
+            steps.append(["add_method", k, cfgm])
             if first_compilable is None:
                 first_compilable = len(steps)
         spec = {
@@ -888,6 +913,8 @@ def gen_features(r: random.Random) -> dict:
         "reserved_slots": r.random() < 0.4,
         "many_args": r.random() < 0.15,
         "ref_txn_args": r.random() < 0.4,
+        "helpers": r.random() < 0.3,
+        "nonce": r.random() < 0.1,
         "named_tuples": r.random() < 0.35,
         "globals": r.random() < 0.35,
         "consts": r.random() < 0.5,
